@@ -34,6 +34,17 @@ Three further specifications are bound the same way (spec -> code; helper module
   * specs/cons/PairTools.tla -- _inverted, _symmetric, unpair, pairwise, indicator_overlap, select_params as exact combinatorics.
 with_std is a catalogue kind ("std") of Transforms.tla; tools.chain is checked against every stackable script.
 
+Spellings and boundary values (harness/c16_spell.py, specs/cons/MC_TransformsB.tla): the drivers above write every input in ONE
+spelling, while the implementation branches on the spelling.  Every case of Transforms.tla whose canonical replay agrees is
+therefore replayed once more in another legal spelling of the same abstract case (same expected value from TLC), chosen by a
+deterministic rotation: numbers as int / numpy scalars / -0.0, index selections as list / array / numpy ints / set / range /
+bare int, containers, +-inf for None, positional / keyword / omitted arguments, the setter calls, text masks, ...; the input as
+int list, tuple, float32 array, numpy-scalar list, with -0.0; and -- for the decorators the specification proves scale-free
+(ThmScale) -- at the magnitudes 2^e the specification lists (5e-324 .. 4e299).  Further TLC configurations enumerate the
+boundary values themselves: falsy / empty / degenerate parameters (edge), two- and three-digit indices on vectors of length
+11..13 (long), the 1e-9 lattice with the default tolerance of suppressed, rounding to 8 / 9 digits and nine-decimal values
+(nano).  A case that fails in a non-canonical spelling only is reported as <kind>:<problem>:<the spelling responsible>.
+
 Expected values come from TLC only; nothing here re-implements a transform.
 """
 import sys, os, json, time, copy, traceback
@@ -59,7 +70,18 @@ RULE = ("every vector of the bounded class (entries from a fixed set of halves, 
         "(thorough: 3) collapses on hand-picked factors) x calling form x input kind.  Intervals: every list of <= 2 (thorough: 3) "
         "intervals with ends in 0..3 (0..4) or unbounded x every such operand x {intersection, union} + inversions, and scripts of 2 (3) "
         "operations over 8 lists; membership compared at every integer and half-integer of the window.  Pair helpers: every list of <= 2 "
-        "pairs over 3 (4) values x a second list.")
+        "pairs over 3 (4) values x a second list.  SPELLINGS AND BOUNDARY VALUES (decorators of Transforms.tla): every case whose "
+        "canonical replay agrees is replayed a third time in another legal spelling chosen by a deterministic rotation over (emission "
+        "line, catalogue entry) -- parameter spelling (python int / numpy float64 / float32 / -0.0 numbers; index as list / ndarray / numpy "
+        "ints / set / range / bare int / omitted; tuple / list / one-element / ndarray / reversed containers; +-inf for an open side; "
+        "positional / keyword / omitted-default arguments; 0/1 flags; the setter calls f.index / f.samples / f.type / f.digits / f.clip / "
+        "f.nearest; dict bounds with index filter; masks with numpy keys, as text with and without blanks, None, omitted; {i: (j,)}, "
+        "{i: (j, 1)}, {i: (j, callable)}; one-element list / array targets) x input spelling (python ints in the list, tuple, float32 array, "
+        "numpy-scalar list, -0.0 zeros, int64 array when the expected result is integral) x magnitude (scale-free decorators, theorem "
+        "ThmScale: the case times 2^e, e in -1073, -1000, -30, 33, 993); plus the configurations MC_TransformsB: edge (0 / 0.0 / () / {} / "
+        "(None, None) / lo = hi parameters on every vector of length 0..3 [thorough 0..4] over {-0.5, 0, 0.5, 1}), long (27 [thorough 78] "
+        "vectors of length 11..13 with indices 10, 11, 12, -11, -13, 100 and masks / pairs on them), nano (S = 10^9: the default tolerance "
+        "1e-8 of suppressed with entries 1e-9 / 1e-8 / 1.1e-8, digits 8 and 9, values with nine decimals; length 0..2 [0..3]).")
 
 # ------------------------------------------------------------------------------------------ TLC side
 # (cfg, number of parallel TLC runs the catalogue is split over); the root module is the cfg's name up to the last "_"
@@ -68,8 +90,16 @@ CONFIGS = {
     "thorough": [("MC_Transforms_thorough.cfg", 15), ("MC_Transforms_tens.cfg", 1), ("MC_TransformsAs_thorough.cfg", 13),
                  ("MC_TransformsAs5_thorough.cfg", 8)],
 }
+# the boundary-value configurations (H16): falsy / empty / degenerate parameters, two- and three-digit indices on long
+# vectors, the 1e-9 lattice (default tolerance of suppressed, digits 8 / 9, nine decimals), and the theorem ThmScale that
+# licenses the replay of scale-free decorators at other magnitudes (no emission: TLC checks the theorem only)
+BOUNDARY = {
+    "quick": [("MC_TransformsB_edge.cfg", 1), ("MC_TransformsB_long.cfg", 1), ("MC_TransformsB_nano.cfg", 1), ("MC_TransformsB_scale.cfg", 1)],
+    "thorough": [("MC_TransformsB_edge_thorough.cfg", 1), ("MC_TransformsB_long_thorough.cfg", 1), ("MC_TransformsB_nano_thorough.cfg", 1),
+                 ("MC_TransformsB_scale.cfg", 1)],
+}
 SCRIPT_CFG = {"quick": "MC_Transforms_script.cfg", "thorough": "MC_Transforms_script_thorough.cfg"}
-MODULES = ("MC_TransformsMeasure", "MC_TransformsAs5", "MC_TransformsAs", "MC_Transforms", "MC_Intervals", "MC_PairTools")
+MODULES = ("MC_TransformsMeasure", "MC_TransformsAs5", "MC_TransformsAs", "MC_TransformsB", "MC_Transforms", "MC_Intervals", "MC_PairTools")
 # the further specifications: (kind of replay, cfg, number of parallel TLC runs the start states are split over)
 EXTRA = {
     "quick": [("measure", "MC_TransformsMeasure_quick.cfg", 2), ("intervals", "MC_Intervals_quick.cfg", 1), ("pairs", "MC_PairTools_quick.cfg", 1)],
@@ -81,7 +111,8 @@ NEW_KINDS = ("measure", "intervals", "pairs", "vacuity")
 VACUITY = ["MC_TransformsMeasure_vac_NeverChain.cfg", "MC_TransformsMeasure_vac_NeverRescue.cfg",
            "MC_TransformsMeasure_vac_NeverZeroReceiver.cfg", "MC_TransformsMeasure_vac_NeverNotIdempotent.cfg",
            "MC_Intervals_vac_NeverOpen.cfg", "MC_Intervals_vac_NeverTouching.cfg", "MC_Intervals_vac_NeverNested.cfg",
-           "MC_Intervals_vac_NeverUnbounded.cfg", "MC_Intervals_vac_NeverEmpty.cfg"]
+           "MC_Intervals_vac_NeverUnbounded.cfg", "MC_Intervals_vac_NeverEmpty.cfg",
+           "MC_TransformsB_vac_ScaleFreeRounding.cfg"]
 
 
 def vacuity_job():
@@ -203,6 +234,8 @@ def sync_value(m, p, S):
         return (m[1], lambda t, c=m[2]: c * t)
     if form == 2:
         return (m[1], lambda t, c=m[2] / S: t + c)
+    if form == 3:
+        return (m[1], 0)                  # the constant scale 0 (Transforms.tla, SyncVal form 3)
     return (m[1], m[2])
 
 
@@ -243,7 +276,7 @@ def describe(d, S):
         return "%s(%s)(%s)" % (k, {m[0]: f(m[1]) for m in iv}, inner)
     if k == "sync":
         form = p[0] if p else 0
-        sv = lambda m: m[1] if m[2] == 0 else ((m[1], m[2]) if form == 0 else
+        sv = lambda m: m[1] if m[2] == 0 else ((m[1], m[2]) if form == 0 else (m[1], 0) if form == 3 else
                                                "(%d, lambda t: %s)" % (m[1], ("%d*t" % m[2]) if form == 1 else ("t+%s" % (m[2] / S))))
         return "synchronized(%s)(%s)" % ({m[0]: sv(m) for m in iv}, inner)
     if k == "clipped":
@@ -297,7 +330,7 @@ def qualifiers(d, n, failing, ascls=None):
     if k == "integers" and p[0] == 1:
         q.append("ints=True")
     if k == "sync" and any(m[2] != 0 for m in iv):
-        q.append("scaled-form" if not p or p[0] == 0 else "callable-form")
+        q.append("scaled-form" if not p or p[0] in (0, 3) else "callable-form")
     if d["g"] == 1:
         q.append("inner=x+0.5")
     pos, raw = addressing(d, n)
@@ -348,24 +381,25 @@ def same_bits(a, b):
     return len(a) == len(b) and all(float(u).hex() == float(w).hex() for u, w in zip(a, b))
 
 
-def in_ranges(o, ranges, S):
+def in_ranges(o, ranges, S, unit=1.0):
     for lo, hi in ranges:
-        lo_f = float("-inf") if lo == -INF else lo / S
-        hi_f = float("inf") if hi == INF else hi / S
+        lo_f = float("-inf") if lo == -INF else lo / S * unit
+        hi_f = float("inf") if hi == INF else hi / S * unit
         if lo_f <= o <= hi_f:
             return True
     return False
 
 
-def judge(exp, xs, out, S, loose=False):
-    """compare the real output with what the specification expects -> list of (problem, failing 0-based entries)"""
+def judge(exp, xs, out, S, loose=False, unit=1.0):
+    """compare the real output with what the specification expects -> list of (problem, failing 0-based entries);
+    unit = 2^e: the case is replayed at another magnitude (scale-free decorators only: exact results, allowed ranges)"""
     def named(bad, default):
         # a selected entry that simply kept its input value is its own class of failure
         if bad and len(out) == len(xs) and all(float(out[i]).hex() == float(xs[i]).hex() for i in bad):
             return [("no-effect", bad)]
         return [(default, bad)] if bad else []
     if isinstance(exp, list):
-        want = [e / S for e in exp]
+        want = [e / S * unit for e in exp]
         if len(out) != len(want):
             return [("wrong-length", [])]
         return named([i for i, (o, w) in enumerate(zip(out, want)) if o != w], "wrong-value")
@@ -398,7 +432,7 @@ def judge(exp, xs, out, S, loose=False):
     allowed = exp["a"]
     if len(out) != len(allowed):
         return [("wrong-length", [])]
-    probs = named([i for i, (o, ranges) in enumerate(zip(out, allowed)) if not in_ranges(o, ranges, S)], "not-in-target")
+    probs = named([i for i, (o, ranges) in enumerate(zip(out, allowed)) if not in_ranges(o, ranges, S, unit)], "not-in-target")
     if exp["u"] and len(set(out)) != len(out):
         probs.append(("not-distinct", []))
     return probs
@@ -415,14 +449,92 @@ def changes(exp, x):
     return any([list(r) for r in ranges] != [[xi, xi]] for ranges, xi in zip(exp["a"], x))
 
 
+def spelled_call(mc, mt, np, d, S, exp, fp, dec, xin, xu, unit):
+    """one call of the real decorator `dec` (a spelling of record d) on the input object `xin` (a spelling of the floats xu):
+    -> (problems, output | repr of the exception).  Same judgement as the canonical calls; entries outside the footprint
+    are compared by value with the input as given (a -0.0 that comes back as 0 is not a change)."""
+    k, n = d["k"], len(xu)
+    inner = (lambda z: z) if d["g"] == 0 else (lambda z: [zi + 0.5 for zi in z])
+    fn = dec(inner)
+    before = as_floats(xin)
+    try:
+        out = as_floats(guarded(fn, xin) if k == "as" else fn(xin))
+    except Exception as ex:
+        return [("raises-" + type(ex).__name__, [])], repr(ex)
+    # (one name for a wrong value in another spelling, whether the entry kept its input value or left the allowed range)
+    probs = [("wrong-value" if pr in ("no-effect", "not-in-target") else pr, es) for pr, es in judge(exp, xu, out, S, unit=unit)]
+    plain = d["g"] == 0 and k != "masked"
+    if plain and k not in STAT and len(out) == n:
+        bad = [i for i in range(n) if (i + 1) not in fp and out[i] != before[i]]
+        if bad:
+            probs.append(("unselected-changed", bad))
+    aliased = k in ("monotonic", "sorting") and d["p"][1] == 1 and d["g"] == 0
+    if k not in INPLACE_OK and not aliased and not same_bits(as_floats(xin), before):
+        probs.append(("input-mutated", []))
+    if plain and not probs:
+        try:
+            again = np.array(out, dtype=xin.dtype) if isinstance(xin, np.ndarray) else type(xin)(out)
+            out2 = as_floats(guarded(fn, again) if k == "as" else fn(again))
+            inexact = isinstance(exp, dict) and (("v" in exp and not exp["ex"]) or "pc" in exp)
+            if len(out2) != len(out) or any((abs(a - b) > 1e-12 * max(1.0, abs(a))) if inexact else (a != b) for a, b in zip(out, out2)):
+                probs.append(("not-idempotent", []))
+        except Exception as ex:
+            probs.append(("second-application-raises-" + type(ex).__name__, []))
+    return probs, out
+
+
+def spelling_variant(spell, mc, mt, np, d, S, xs, exp, fp, r, di, exps, counts, cache):
+    """the abstract case (d, xs, exp) once more, in the spelling the rotation of c16_spell picks: -> None (nothing but the
+    canonical spelling exists) | dict(param, input, e, problems, got, culprit)"""
+    e = spell.magnitude(r, exps)
+    unit = 2.0 ** e
+    integral = isinstance(exp, list) and all(float(v / S * unit).is_integer() and abs(v / S * unit) < 2 ** 53 for v in exp)
+    pk = spell.pick(mc, mt, np, d, S, xs, r, di, e, integral, cache)
+    if pk is None:
+        return None
+    pname, dec, iname, xin, xu = pk
+    label = spell.input_label(xu, iname)
+    for c in ("parameters: " + pname, "input: " + label, "magnitude: 2^%d" % e):
+        counts[c] = counts.get(c, 0) + 1
+    probs, got = spelled_call(mc, mt, np, d, S, exp, fp, dec, xin, xu, unit)
+    res = {"param": pname, "input": label, "input_spelling": iname, "e": e, "problems": probs, "got": got, "culprit": None, "xu": xu}
+    if probs:
+        def fails(pn, inp):
+            try:
+                dd = spell.build(mc, mt, np, d, S, unit, pn, f32_ok=spell.f32_exact(S, e))
+                xx = spell.make_input(xu, inp, np, d, integral, spell.f32_exact(S, e), e)
+            except spell.NotApplicable:
+                return False
+            # (the randomising modes draw again at every call: a single agreeing draw does not clear a spelling)
+            tries = 12 if (d["k"] == "unique" or (d["k"] == "bounds" and 0 in d["p"][:2])) else 1
+            return any(spelled_call(mc, mt, np, d, S, exp, fp, dd, xx, xu, unit)[0] for _ in range(tries))
+        base = "array" if isinstance(xin, np.ndarray) else "list"
+        if e != 0 and fails(spell.CANONICAL, base):
+            res["culprit"] = "magnitude=2^%d" % e
+        elif iname not in ("list", "array") and fails(spell.CANONICAL, iname):
+            res["culprit"] = "input=" + label
+        elif pname != spell.CANONICAL and fails(pname, base):
+            res["culprit"] = pname
+        else:
+            res["culprit"] = pname + "+input=" + label + ("" if e == 0 else "+magnitude=2^%d" % e)
+    return res
+
+
 def replay_cases(header, lines, mc, mt, np, corrupt=False):
     """replay one TLC run; returns a summary dict (picklable)"""
+    from harness import c16_spell as spell
     S = header["S"]
     cat, foot, oor = header["cat"], header["foot"], header["oor"]
     ascls = header.get("ascls")
     fns = {}
     res = {"evaluations": 0, "nontrivial": set(), "undefined": 0, "viol": {}, "nviol": {}, "samples": [],
-           "classes": {}, "lines": len(lines), "per_kind": {}, "pair_order": {}, "pair_order_example": None}
+           "classes": {}, "lines": len(lines), "per_kind": {}, "pair_order": {}, "pair_order_example": None, "spellings": {}}
+    sf, ue = header.get("sf"), header.get("ue")
+    pow2 = S > 0 and (S & (S - 1)) == 0           # magnitudes 2^e are exact only on a binary lattice
+    spell_cache = {}
+    turn = {}                                      # kind -> running number of its cases (drives the rotation of the spellings)
+    # the mask configurations (hundreds of impose_as records) and the big thorough tables: every third case of a kind
+    thin = 3 if (len(cat) > 300 or len(lines) > 1000) else 1
 
     def add_violation(key, detail, what):
         res["nviol"][key] = res["nviol"].get(key, 0) + 1
@@ -444,7 +556,7 @@ def replay_cases(header, lines, mc, mt, np, corrupt=False):
                 res["undefined"] += 1
                 pk[2] += 1
                 continue
-            if corrupt and ln_no == len(lines) // 2 and isinstance(exp, list) and exp:
+            if corrupt is True and ln_no == len(lines) // 2 and isinstance(exp, list) and exp:
                 exp = [exp[0] + 1] + exp[1:]          # self-test: a corrupted expected value must be noticed
             nontriv = changes(exp, x)
             fp = set(foot[di][n])
@@ -487,6 +599,29 @@ def replay_cases(header, lines, mc, mt, np, corrupt=False):
                     except Exception as ex:
                         probs.append(("second-application-raises-" + type(ex).__name__, []))
                 per_kind[kind] = probs
+            # ---- the same abstract case once more in ANOTHER legal spelling (parameters x input x magnitude; harness/c16_spell.py)
+            acl0 = ascls[di][n] if (k == "as" and ascls) else None
+            if OPTS["spell"] and not any(per_kind.values()) and not (acl0 and acl0[2]):
+                turn[k] = turn.get(k, -1) + 1
+            if OPTS["spell"] and not any(per_kind.values()) and not (acl0 and acl0[2]) and turn[k] % thin == 0:
+                vexp = exp
+                if corrupt == "spelling" and isinstance(exp, list) and exp and turn[k] % 5 == 0:
+                    vexp = [exp[0] + 1] + exp[1:]          # self-test: a corrupted expected value must be noticed by this part too
+                exps = ue if (pow2 and sf and sf[di] and ue) else None
+                vr = spelling_variant(spell, mc, mt, np, d, S, xs, vexp, fp, turn[k] // thin, di, exps, res["spellings"], spell_cache)
+                if vr is not None:
+                    res["evaluations"] += 1
+                    if nontriv:
+                        res["nontrivial"].add((di, tuple(x), "spelling"))
+                    for pr in sorted(set(q for q, _ in vr["problems"])):
+                        key = ":".join([k, pr, vr["culprit"]])
+                        text = "%s [parameters: %s; input: %s %r; magnitude 2^%d]" % (describe(d, S), vr["param"], vr["input"], vr["xu"], vr["e"])
+                        add_violation(key, {"decorator": describe(d, S), "record": d, "input": xs, "expected(spec units 1/%d)" % S: vexp,
+                                            "spelling": {"parameters": vr["param"], "input": vr["input_spelling"], "magnitude_exponent": vr["e"]},
+                                            "got": vr["got"], "footprint(1-based)": sorted(fp), "culprit": vr["culprit"],
+                                            "canonical_spelling_agrees": True},
+                                      "%s: %s (the canonical spelling agrees with the spec); spec %s x 2^%d, mystic %s" % (
+                                          text, pr, json.dumps(vexp)[:200], vr["e"], json.dumps(vr["got"], default=str)[:300]))
             pk[0] += 1
             pk[1] += 1 if nontriv else 0
             if isinstance(exp, dict):
@@ -623,7 +758,10 @@ CACHE = {}          # (cfg, part, nparts) -> (header, lines, stats): filled by t
 # impose_as masks whose list is not "source first" (classes as:pair-order:*): by default their disagreements are counted and
 # printed as a NOTE but not judged (premise: the list names each component's source first, like every docstring example);
 # C16_PAIR_ORDER=judge reports them as violations (see new_check and the FINDING in the evidence file)
-OPTS = {"corrupt": False, "pair_order_premise": os.environ.get("C16_PAIR_ORDER", "judge") != "judge"}
+OPTS = {"corrupt": False, "pair_order_premise": os.environ.get("C16_PAIR_ORDER", "judge") != "judge",
+        # C16_SPELL=off: development aid -- the check as it was before the spelling / boundary part (canonical spellings only, and
+        # without the edge / long / nano / scale configurations); used by the self-test to show what that part adds
+        "spell": os.environ.get("C16_SPELL", "on") != "off"}
 FLAGS = {"fixes": False}
 
 
@@ -649,7 +787,8 @@ def work(job):
     old = np.seterr(all="ignore")
     try:
         if what == "cases":
-            res = replay_cases(header, lines, mc, mt, np, corrupt=OPTS["corrupt"] is True and part == 0)
+            res = replay_cases(header, lines, mc, mt, np, corrupt=(OPTS["corrupt"] is True and part == 0) or
+                               (OPTS["corrupt"] == "spelling" and "spelling"))
         elif what == "measure":
             from harness.c16_measure import replay_measure
             res = replay_measure(lines, mc, np, header["S"], corrupt=OPTS["corrupt"] == "measure" and part == 0)
@@ -674,6 +813,9 @@ def jobs_for(tier):
     for cfg, nparts in CONFIGS[tier]:
         jobs += [("cases", cfg, p, nparts) for p in range(nparts)]
     jobs.append(("scripts", SCRIPT_CFG[tier], 0, 1))
+    if OPTS["spell"]:
+        for cfg, nparts in BOUNDARY[tier]:
+            jobs += [("cases", cfg, p, nparts) for p in range(nparts)]
     extra = []
     for what, cfg, nparts in EXTRA[tier]:
         extra += [(what, cfg, p, nparts) for p in range(nparts)]
@@ -755,6 +897,16 @@ def run_all(ck, a, jobs):
         ck.extra["NOTES (observed, outside the property as stated, NOT judged)"] = notes
         for k, v in sorted(notes.items()):
             print("NOTE: %s (%d times; not judged)" % (k, v))
+    spl = {}
+    for res in results:
+        for k, v in res.get("spellings", {}).items():
+            spl[k] = spl.get(k, 0) + v
+    if spl:
+        ck.extra["spellings_replayed[cases per spelling; each case also in the canonical spelling as list and as array]"] = dict(sorted(spl.items()))
+        rare = sorted(k for k, v in spl.items() if v < 24 and k not in ("input: list", "input: array"))
+        if rare:
+            ck.extra["spellings_used_fewer_than_24_times"] = rare
+            print("NOTE: spellings used fewer than 24 times in this run: %s" % rare)
     ck.extra["interval_test_points_left_open(isolated points at operand ends)"] = sum(r.get("open_points", 0) for r in results)
     ck.extra["premise_not_met_cases(skipped)"] = undefined
     ck.extra["case_classes"] = classes
@@ -817,6 +969,19 @@ def new_check(a):
         "indices=False returns a 2-tuple (distances, distances) is recorded as a NOTE, not judged",
         "not covered here (they need termination objects or solvers and are outside the transforms of C16): tools.no_mask, _no_mask, "
         "unmasked_collapse, masked_collapse, _masked_collapse, solver_bounds; insert_missing is exercised through masked",
+        "spellings (harness/c16_spell.py): only spellings the unchanged tree accepts for a whole decorator kind are in the rotation (ndarray "
+        "bounds, set samples, ints=0/1, a bare int through an index setter and tuples for the decorators that assign into their argument "
+        "raise and are outside the domain); numpy.float32 parameters and float32 inputs only where single precision holds every number of "
+        "the case (binary lattice, magnitudes 2^-30..2^33; not for the moment decorators); an int64 array only when the expected result is "
+        "integral (the container can hold it), while a python LIST of ints is replayed whatever the parameters are (a list can hold the "
+        "result; the docstrings of impose_at / impose_as / with_mean use int lists); in another spelling an entry outside the footprint is "
+        "compared by value (a -0.0 coming back as 0 is no change); a set is passed as impose_as mask only for masks of at most one pair",
+        "magnitudes: ThmScale (TLC, configurations MC_TransformsB_scale / _edge) shows that for the kinds bounds, discrete, unique, monotonic, "
+        "sorting, at, as, masked, partial, sync, clipped, suppressed (around the identity) input and value parameters times c give the "
+        "result times c; the replay uses c = 2^e (exact in binary floating point) on the binary lattices; the rounding decorators (fixed "
+        "grid) and the moment decorators (documented tolerances of almostEqual) are replayed at the unit scale only",
+        "multi-element target lists of impose_at (docstring: 'or a list of values') are not specified: the docstring's own second and third "
+        "example raise under the pinned numpy (shape mismatch), a one-element list / array is replayed as a spelling of the scalar",
         "trusted base: TLC's evaluation of the specifications, the JSON emission, and the harness' construction of the real decorator / call from an emitted record",
     ]
     return ck
@@ -924,7 +1089,7 @@ def selftest(a):
 
     import mystic.math.measures as mm
     orig = {"bounded": mc.bounded, "discrete": mc.discrete, "integers": mc.integers, "impose_at": mc.impose_at,
-            "sorting": mc.sorting, "suppress": mt.suppress, "impose_as": mc.impose_as, "clipped": mt.clipped,
+            "sorting": mc.sorting, "suppress": mt.suppress, "rounded": mc.rounded, "impose_bounds": mc.impose_bounds, "impose_as": mc.impose_as, "clipped": mt.clipped,
             "insert_missing": mt.insert_missing, "monotonic": mc.monotonic, "partial": mt.partial,
             "synchronized": mt.synchronized,
             "with_std": mc.with_std, "impose_measure": mc.impose_measure, "impose_collapse": mc.impose_collapse,
@@ -1052,7 +1217,8 @@ def selftest(a):
         src_mutant(mt, "_interval_invert", "lb = _a if lb is None else lb", "lb = _a")
 
     def m_union_hull_of_first():
-        src_mutant(mt, "_interval_union", "lb,ub = min(_a,_b),max(a_,b_)", "lb,ub = _a,a_")
+        # (pattern follows the repaired _interval_union of /repo: the union is built from the first operand alone)
+        src_mutant(mt, "_interval_union", "list(bounds1)+list(bounds2)", "list(bounds1)")
 
     def m_indicator_swapped():
         src_mutant(mt, "indicator_overlap", "if union:", "if not union:")
@@ -1071,6 +1237,42 @@ def selftest(a):
 
     def m_corrupt_measure():
         OPTS["corrupt"] = "measure"
+
+    # ---- mutants only the spelling / boundary part (H16) can see: the canonical spellings and the old catalogues agree with them
+    def m_sp_tol_or_default():
+        # `x or default`: a legal tolerance 0 is taken for "not given" (only entries below 1e-8 tell: the 1e-9 lattice)
+        src_mutant(mt, "suppress", "mask = abs(x) < tol", "mask = abs(x) < (tol or 1e-8)")
+
+    def m_sp_as_int_array():
+        # impose_as works on numpy.array(x): an all-integer list becomes an integer array that truncates the offset
+        src_mutant(mc, "impose_as", "x = copy.copy(x) #XXX: inefficient", "x = __import__('numpy').array(x)")
+
+    def m_sp_two_digit_index():
+        # off by a digit: indices >= 10 are dropped (only vectors longer than 10 tell)
+        src_mutant(mc, "discrete", "if -mask.size <= i < mask.size: mask[i] = True", "if -mask.size <= i < min(mask.size, 10): mask[i] = True")
+
+    def m_sp_index_setter_noop():
+        # f.index(...) of rounded does nothing (only the setter spelling tells)
+        src_mutant(mc, "rounded", "index[0] = alist", "pass")
+
+    def m_sp_clip_setter_noop():
+        # f.clip(...) of impose_bounds does nothing
+        src_mutant(mc, "impose_bounds", "clip[0] = clipped", "pass")
+
+    def m_sp_abs_tolerance():
+        # the in-bounds test gets an absolute tolerance 1e-12 (only magnitudes below it tell)
+        src_mutant(mc, "bounded", "(lo <= seq)&(seq <= hi)", "(lo - 1e-12 <= seq)&(seq <= hi + 1e-12)")
+
+    def m_sp_digits_capped():
+        # rounding precision silently capped at 7 digits (only digits=8 on nine-decimal values tells)
+        src_mutant(mc, "rounded", "xp = round(x, digits[0])", "xp = round(x, min(digits[0], 7))")
+
+    def m_sp_sync_zero_scale():
+        # `x or default` again: a legal scale 0 in {i: (j, 0)} is taken for "no scale"
+        src_mutant(mt, "synchronized", "j0,j1 = (j[:2] + (1,))[:2]", "j0,j1 = (j[:2] + (1,))[:2]; j1 = j1 or 1")
+
+    def m_corrupt_spelling():
+        OPTS["corrupt"] = "spelling"
 
     def m_corrupt_intervals():
         OPTS["corrupt"] = "intervals"
@@ -1104,9 +1306,18 @@ def selftest(a):
                ("measure: vector loaded with the shape reversed", m_measure_shape_reversed),
                ("measure: impose_weight drops its collapses", m_weight_alias_swapped),
                ("measure: one expected value from TLC corrupted", m_corrupt_measure),
+               ("spell: suppressed takes tol=0 for missing (tol or 1e-8)", m_sp_tol_or_default),
+               ("spell: impose_as works on an integer array for an all-integer list", m_sp_as_int_array),
+               ("spell: discrete drops indices >= 10", m_sp_two_digit_index),
+               ("spell: rounded's index setter does nothing", m_sp_index_setter_noop),
+               ("spell: impose_bounds' clip setter does nothing", m_sp_clip_setter_noop),
+               ("spell: bounded tests membership with an absolute tolerance 1e-12", m_sp_abs_tolerance),
+               ("spell: rounded caps digits at 7", m_sp_digits_capped),
+               ("spell: synchronized takes the scale 0 for missing (j1 or 1)", m_sp_sync_zero_scale),
+               ("spell: one expected value from TLC corrupted (seen by the spelling replay only)", m_corrupt_spelling),
                ("new: _interval_intersection drops pieces", m_intersection_partial),
                ("new: _interval_invert ignores lb", m_invert_ignores_lb),
-               ("new: _interval_union takes the hull of its first operand", m_union_hull_of_first),
+               ("new: _interval_union ignores its second operand", m_union_hull_of_first),
                ("new: indicator_overlap union/intersection swapped", m_indicator_swapped),
                ("new: _inverted returns the pairs unchanged", m_inverted_identity),
                ("new: pairwise returns signed differences", m_pairwise_signed),
@@ -1127,6 +1338,8 @@ def selftest(a):
     other_jobs = [j for j in jobs if "TransformsAs" not in j[1] and j[0] not in NEW_KINDS]
     measure_jobs = [j for j in jobs if j[0] == "measure"]
     new_jobs = [j for j in jobs if j[0] in ("intervals", "pairs")]
+    spell_jobs = [j for j in jobs if j[0] == "cases" and "TransformsAs" not in j[1]]
+    spell_as_jobs = [j for j in jobs if j[0] == "cases" and ("TransformsAs" in j[1] or "TransformsB" in j[1])]
     only = os.environ.get("C16_SELFTEST_ONLY")          # development aid: run the mutants whose name contains this text
     for name, mut in mutants:
         if only and only not in name:
@@ -1135,11 +1348,22 @@ def selftest(a):
         ck = Check("C16", "exploration", tier, a.seed, rule=RULE)
         ck.outdir = scratch
         buf = io.StringIO()
+        before = None
         try:
             with contextlib.redirect_stdout(buf):
-                run_all(ck, a, as_jobs if name.startswith("impose_as:") else measure_jobs if name.startswith("measure:")
-                        else new_jobs if name.startswith("new:") else other_jobs)
+                js = (as_jobs if name.startswith("impose_as:") else measure_jobs if name.startswith("measure:")
+                      else new_jobs if name.startswith("new:") else (spell_as_jobs if "impose_as" in name else spell_jobs)
+                      if name.startswith("spell:") else other_jobs)
+                run_all(ck, a, js)
             new = {k: v - base_keys.get(k, 0) for k, v in ck.viol_keys.items() if v > base_keys.get(k, 0)}
+            if name.startswith("spell:"):
+                # the same mutant against the check as it was BEFORE this part: canonical spellings, old configurations only
+                OPTS["spell"] = False
+                ck0 = Check("C16", "exploration", tier, a.seed, rule=RULE)
+                ck0.outdir = scratch
+                with contextlib.redirect_stdout(io.StringIO()):
+                    run_all(ck0, a, [j for j in js if "TransformsB" not in j[1]])
+                before = {k: v - base_keys.get(k, 0) for k, v in ck0.viol_keys.items() if v > base_keys.get(k, 0)}
         except Exception as ex:
             new = {"harness-raised:" + repr(ex)[:80]: 1}
         finally:
@@ -1147,9 +1371,12 @@ def selftest(a):
                 setattr(mt if k in TOOLS else mc, k, v)
             mc.impose_position, mc.impose_weight = orig_aliases
             OPTS["corrupt"] = False
+            OPTS["spell"] = True
         caught = bool(new)
         ex_keys = sorted(new)[:3]
-        print("SELFTEST %s: %s (%d new violations; e.g. %s)" % (name, "caught" if caught else "MISSED", sum(new.values()), ex_keys))
+        print("SELFTEST %s: %s (%d new violations; e.g. %s)%s" % (name, "caught" if caught else "MISSED", sum(new.values()), ex_keys,
+              "" if not name.startswith("spell:") else "  [canonical spellings and old configurations alone: %s]" % (
+                  "n/a" if before is None else ("also caught" if before else "missed"))))
         sys.stdout.flush()
         missed += 0 if caught else 1
     import shutil
@@ -1203,8 +1430,30 @@ def replay_artefact(path):
         return 2
     d, xs = det["record"], det["input"]
     S = 2
+    for kk in det:
+        if kk.startswith("expected(spec units 1/"):
+            S = int(kk.split("1/")[1].rstrip(")"))
     exp = det.get("expected(spec units 1/%d)" % S)
     bad = 0
+    if "spelling" in det:                         # a case that fails in a non-canonical spelling only (harness/c16_spell.py)
+        from harness import c16_spell as spell
+        sp = det["spelling"]
+        e = sp["magnitude_exponent"]
+        unit = 2.0 ** e
+        xu = [v * unit for v in xs]
+        integral = isinstance(exp, list) and all(float(v / S * unit).is_integer() and abs(v / S * unit) < 2 ** 53 for v in exp)
+        try:
+            dec = spell.build(mc, mt, np, d, S, unit, sp["parameters"], f32_ok=spell.f32_exact(S, e))
+            xin = spell.make_input(xu, sp["input"], np, d, integral, spell.f32_exact(S, e), e)
+            probs, out = spelled_call(mc, mt, np, d, S, exp, set(det["footprint(1-based)"]), dec, xin, xu, unit)
+        except spell.NotApplicable as ex:
+            print("spelling %s does not exist for this record (%r)" % (sp, ex))
+            return 2
+        print("%s [parameters: %s; input: %s %r; magnitude 2^%d] -> %s   spec: %s x 2^%d   %s" % (
+            describe(d, S), sp["parameters"], sp["input"], xin, e, out, json.dumps(exp)[:200], e, [q for q, _ in probs] or "agrees"))
+        if probs:
+            print("VIOLATION property=C16 replay=%s" % path)
+        return 1 if probs else 0
     for kind in ("list", "array"):
         try:
             out = as_floats(build(mc, mt, d, S, kind)(make_input(xs, kind, np)))
